@@ -11,6 +11,11 @@
 //!   crash   : `freeze` killed at its k-th durable write (hook H2), then `restart`
 //!   nofreezer: the same history on a node without freezer
 //! and compares every answer vector with the expected one.
+//!   syncfreeze: (durability-order monitor) the child runs under strace: a freeze pass that another
+//!             thread cuts short through `freezer.stopped`, then a completing pass; the parent
+//!             replays the syscall log through `vbase::durability::Model` and demands that no
+//!             RocksDB file is fsynced after the pass wrote to the WAL (the deletions) while a
+//!             freezer file still holds unsynced data.
 
 use ckb_chain::RemoteBlock;
 use ckb_hash::blake2b_256;
@@ -202,6 +207,43 @@ pub fn child(args: &Args) -> i32 {
         }
         result["answers"] = json!(node_answers(node.shared.store(), q));
         result["tip"] = json!(vbase::hex(node.tip_hash().as_slice()));
+    } else if mode == "syncfreeze" {
+        // durability-order monitor: markers are written by the thread that runs the pass
+        let marker = vbase::durability::Marker::open(args.get_str("mark"));
+        let stop_after = args.get_u64("stop_after", 0);
+        let fz = node.shared.store().freezer().expect("freezer enabled");
+        let mut passes = vec![];
+        for pass in 1..=2u64 {
+            let before = fz.number();
+            let done = AtomicBool::new(false);
+            let mut err = None;
+            std::thread::scope(|s| {
+                if pass == 1 && stop_after > 0 {
+                    // "shutdown" as soon as `stop_after` blocks of this pass are in the freezer
+                    let done = &done;
+                    s.spawn(move || {
+                        while !done.load(Ordering::SeqCst) {
+                            if fz.number() >= before + stop_after {
+                                fz.stopped.store(true, Ordering::SeqCst);
+                                break;
+                            }
+                            std::hint::spin_loop();
+                        }
+                    });
+                }
+                marker.mark(&format!("freeze-begin pass={pass} number={before}"));
+                err = node.shared.verif_freeze_once().err().map(|e| e.to_string());
+                let stopped = fz.stopped.load(Ordering::SeqCst);
+                marker.mark(&format!("freeze-end pass={pass} ok={} before={before} number={} stopped={}", err.is_none() as u8, fz.number(), stopped as u8));
+                done.store(true, Ordering::SeqCst);
+            });
+            passes.push(json!({"before": before, "after": fz.number(), "stopped": fz.stopped.load(Ordering::SeqCst), "error": err}));
+            fz.stopped.store(false, Ordering::SeqCst);
+        }
+        result["passes"] = json!(passes);
+        result["frozen_after_freeze"] = json!(fnum(&node));
+        result["answers_after_freeze"] = json!(node_answers(node.shared.store(), q));
+        marker.mark("child-end");
     } else {
         result["answers_after_open"] = json!(node_answers(node.shared.store(), q));
         result["frozen_after_open"] = json!(fnum(&node));
@@ -284,6 +326,173 @@ fn run_child(mode: &str, db: &Path, history: &Path, out: &Path, freezer: bool, c
     (std::fs::read_to_string(out).ok().and_then(|s| serde_json::from_str(&s).ok()), tail)
 }
 
+/// Durability-order monitor (syscall level). Runs `freeze-child mode=syncfreeze` under strace
+/// on a copy of the pristine database and judges the recorded log:
+/// from the moment a freeze pass has written to the RocksDB WAL (`wipe_out_frozen_data` put the
+/// deletions of the frozen blocks there) no file of the database may be fsynced while a freezer
+/// file (`ancient/INDEX`, `ancient/blk*`) holds data that has not been fsynced - the deletion
+/// would be durable while the only other copy of the blocks is in the page cache.
+/// Returns the answers of the child after the interrupted + completed passes.
+#[allow(clippy::too_many_arguments)]
+fn sync_monitor(r: &mut Report, scratch: &vbase::Scratch, pristine: &Path, history: &Path, hi: u64, target: u64, stop_after: u64, wit0: &Value) -> Option<Value> {
+    use vbase::durability::{self as du, Obs};
+    let sdb = scratch.join(&format!("h{hi}-sync"));
+    copy_dir(pristine, &sdb);
+    let pre = du::list_files(&sdb);
+    let out = scratch.join(&format!("h{hi}-sync-out.json"));
+    let log = scratch.join(&format!("h{hi}-sync.strace"));
+    let mark = scratch.join(&format!("h{hi}-sync.MARK"));
+    for f in [&out, &log, &mark] {
+        let _ = std::fs::remove_file(f);
+    }
+    let exe = std::env::current_exe().unwrap();
+    let o = du::strace_command(&log)
+        .arg(exe)
+        .arg("freeze-child")
+        .arg("mode=syncfreeze")
+        .arg(format!("db={}", sdb.display()))
+        .arg(format!("history={}", history.display()))
+        .arg(format!("out={}", out.display()))
+        .arg(format!("mark={}", mark.display()))
+        .arg(format!("stop_after={stop_after}"))
+        .arg("freezer=1")
+        .env_remove("VERIF_CRASH_AT")
+        .env_remove("VERIF_OUT_DIR")
+        .env("VERIF_SCRATCH_BASE", sdb.parent().unwrap())
+        .stdout(std::process::Stdio::null())
+        .stderr(std::process::Stdio::piped())
+        .output();
+    r.count("sync.strace_runs");
+    let res: Option<Value> = std::fs::read_to_string(&out).ok().and_then(|s| serde_json::from_str(&s).ok());
+    let text = std::fs::read_to_string(&log).unwrap_or_default();
+    for f in [&out, &log, &mark] {
+        let _ = std::fs::remove_file(f);
+    }
+    let _ = std::fs::remove_dir_all(&sdb);
+    match &o {
+        Err(e) => {
+            r.inconclusive(&format!("sync monitor: strace could not be started: {e}"));
+            return None;
+        }
+        Ok(o) if !o.status.success() || res.is_none() => {
+            let tail: String = String::from_utf8_lossy(&o.stderr).lines().rev().take(4).collect::<Vec<_>>().join(" | ");
+            r.inconclusive(&format!("sync monitor: traced freeze child failed ({}): {tail}", o.status));
+            return None;
+        }
+        _ => {}
+    }
+    let t = du::parse(&text);
+    r.count_n("sync.log_lines", t.lines);
+    r.count_n("sync.syscalls_parsed", t.calls.len() as u64);
+    if t.unparsed > 0 || t.calls.is_empty() {
+        r.inconclusive(&format!("sync monitor: {} line(s) of the strace log could not be parsed ({} calls), e.g. {:?}", t.unparsed, t.calls.len(), t.unparsed_samples));
+        return res;
+    }
+    let cl = |p: &str| du::classify_node_path(p);
+    let mut m = du::Model::new(&cl, &pre);
+    // window = from `freeze-begin` of a pass to the next `freeze-begin` (or the end of the log)
+    struct Win {
+        kind: String,
+        wal_written: bool,
+        touched: std::collections::BTreeSet<&'static str>,
+        pending: Option<(String, Value)>,
+    }
+    let mut win: Option<Win> = None;
+    let mut child_end = false;
+    let close = |w: Option<Win>, r: &mut Report| {
+        let Some(w) = w else { return };
+        for c in &w.touched {
+            r.distinct_str(&format!("sync|{hi}|{}|{c}", w.kind));
+        }
+        if let Some((detail, wit)) = w.pending {
+            r.violation(&format!("durability.kv_sync_while_freezer_dirty@{}", w.kind), detail, wit);
+        }
+    };
+    for (ph, i) in &t.timeline {
+        let call = &t.calls[*i];
+        let Some(obs) = m.step(*ph, call) else { continue };
+        match obs {
+            Obs::Mark(text) => {
+                let kvn = |k: &str| text.split_whitespace().find_map(|w| w.strip_prefix(k).and_then(|x| x.strip_prefix('='))).and_then(|v| v.parse::<u64>().ok());
+                if text.starts_with("freeze-begin") {
+                    close(win.take(), r);
+                    win = Some(Win { kind: "unfinished_pass".into(), wal_written: false, touched: Default::default(), pending: None });
+                    r.count("sync.marker_events");
+                } else if text.starts_with("freeze-end") {
+                    r.count("sync.marker_events");
+                    let (before, after) = (kvn("before").unwrap_or(0), kvn("number").unwrap_or(0));
+                    let kind = if kvn("ok") != Some(1) {
+                        r.inconclusive(&format!("sync monitor: verif_freeze_once returned Err in the traced child ({text})"));
+                        "failed_pass"
+                    } else if after == before {
+                        "idle_pass"
+                    } else if kvn("stopped") == Some(1) && after < target {
+                        r.count("sync.partial_passes_observed");
+                        "partial_pass"
+                    } else {
+                        "full_pass"
+                    };
+                    r.count(&format!("sync.passes.{kind}"));
+                    r.count_n(&format!("sync.blocks_moved.{kind}"), after - before);
+                    if let Some(w) = win.as_mut() {
+                        w.kind = kind.to_string();
+                        // the freezer files must be clean here as well if blocks were moved: counted, judged by C09
+                        if m.dirty().iter().any(|d| du::is_freezer_class(d.class)) {
+                            r.count("sync.freezer_dirty_at_freeze_end");
+                        }
+                    }
+                } else if text.starts_with("child-end") {
+                    child_end = true;
+                }
+            }
+            Obs::Modified { class, kind, .. } => {
+                if let Some(w) = win.as_mut() {
+                    w.touched.insert(class);
+                    if class == "kv_wal" && kind == "write" {
+                        w.wal_written = true;
+                    }
+                }
+            }
+            Obs::SyncStart { path, class } if du::is_kv_class(class) => {
+                let Some(w) = win.as_mut() else {
+                    r.count("sync.kv_syncs_outside_freeze_window(no_demand)");
+                    continue;
+                };
+                if !w.wal_written {
+                    // nothing of this pass is in the key-value store yet
+                    r.count("sync.kv_syncs_before_the_pass_wrote_to_the_wal(no_demand)");
+                    continue;
+                }
+                r.eval();
+                r.count("sync.kv_syncs_checked");
+                r.count(&format!("sync.kv_syncs_checked.{class}"));
+                let dirty: Vec<du::DirtyFile> = m.dirty().into_iter().filter(|d| du::is_freezer_class(d.class)).collect();
+                if !dirty.is_empty() && w.pending.is_none() {
+                    let list = dirty.iter().map(|d| d.describe()).collect::<Vec<_>>();
+                    w.pending = Some((
+                        format!(
+                            "{} ({class}) is fsynced after the freeze pass wrote to the WAL (the frozen blocks are deleted from the key-value store durably) while the freezer still holds unsynced data: {}",
+                            path,
+                            list.join("; ")
+                        ),
+                        json!({"history": wit0, "stop_after": stop_after, "kv_file_synced": path, "dirty_freezer_files": list, "last_relevant_syscalls": m.excerpt(),
+                               "replay": "vmon freeze --seed S --tier T (sync monitor of this history)"}),
+                    ));
+                }
+            }
+            _ => {}
+        }
+    }
+    close(win.take(), r);
+    for (k, v) in &m.counters {
+        r.count_n(&format!("sync.{k}"), *v);
+    }
+    if !child_end {
+        r.inconclusive("sync monitor: the child's end marker is not in the strace log");
+    }
+    res
+}
+
 fn copy_dir(src: &Path, dst: &Path) {
     let _ = std::fs::remove_dir_all(dst);
     std::fs::create_dir_all(dst).unwrap();
@@ -362,12 +571,19 @@ pub fn run(args: &Args) -> i32 {
         "C10",
         "fault_enumeration",
         args,
-        "chains of several tiny epochs with forks at heights that become frozen; answer vectors (block, packed block, header, body, tx hashes, cellbase, uncles, proposals, extension (also via the script data loader), transactions with location, ancestors, live cells) evaluated before freezing, concurrently with freezing, after freezing (warm caches), after restart (cold caches), after a second pass, after a crash at every durable write of the freeze / wipe-out sequence, and without freezer, each compared with the answers derived from the RefChain model; distinct = (history, stage, crash point) answer vectors judged",
+        "chains of several tiny epochs with forks at heights that become frozen; answer vectors (block, packed block, header, body, tx hashes, cellbase, uncles, proposals, extension (also via the script data loader), transactions with location, ancestors, live cells) evaluated before freezing, concurrently with freezing, after freezing (warm caches), after restart (cold caches), after a second pass, after a crash at every durable write of the freeze / wipe-out sequence, after a pass cut short by the stop flag plus the completing pass, and without freezer, each compared with the answers derived from the RefChain model; syscall level (freeze child under strace, page-cache model per file): once a pass (complete or cut short by the stop flag from another thread) has written to the RocksDB WAL, no file under db/ is fsynced while ancient/INDEX or ancient/blk* holds unsynced writes; distinct = (history, stage, crash point) answer vectors judged",
     );
     let mut rng = Rng::new(args.seed ^ 0xF10);
     let scratch = vbase::Scratch::new("freeze");
     let n_hist = args.get_u64("histories", args.tier.pick(2, 12));
     let deadline = Instant::now() + Duration::from_secs(args.get_u64("budget_s", args.tier.pick(120, 1200)));
+    let sync_ok = match vbase::durability::strace_usable() {
+        Ok(()) => true,
+        Err(e) => {
+            r.inconclusive(&format!("sync monitor: {e}"));
+            false
+        }
+    };
     for hi in 0..n_hist {
         if Instant::now() > deadline {
             r.note("stopped_by_budget_after_histories", json!(hi));
@@ -485,6 +701,34 @@ pub fn run(args: &Args) -> i32 {
                 }
             }
         }
+        // ---- durability-order monitor (syscall level): interrupted pass + completing pass under strace
+        if sync_ok && threshold > 0 && frozen > 2 && hi < args.get_u64("sync_histories", u64::MAX) {
+            let moved = frozen - 1;
+            // own stream: the histories must not depend on how many attempts were needed
+            let mut srng = Rng::new(args.seed ^ 0x5C00 ^ (hi << 32));
+            let mut got_partial = false;
+            for attempt in 0..args.tier.pick(3u64, 4) {
+                let k = 1 + srng.below((moved - 1).min(4 + attempt));
+                let k = k.min(moved.saturating_sub(2).max(1));
+                let before = r.counter("sync.partial_passes_observed");
+                let res = sync_monitor(&mut r, &scratch, &pristine, &file, hi, frozen, k, &wit0);
+                if let Some(res) = res {
+                    let fa = res["frozen_after_freeze"].as_u64().unwrap_or(0);
+                    judge(&to_answers(&res["answers_after_freeze"]), &exp, rc, &side, fa, "after_interrupted_and_completed_pass", &wit0, &mut r);
+                    if fa != frozen {
+                        r.violation("interrupted_pass_then_next_pass_does_not_reach_same_end", format!("{fa} vs {frozen}; passes {}", res["passes"]), wit0.clone());
+                    }
+                    r.distinct(vbase::fnv1a(format!("{hi}-sync-{k}").as_bytes()));
+                }
+                if r.counter("sync.partial_passes_observed") > before {
+                    got_partial = true;
+                    if attempt + 1 >= args.tier.pick(1, 2) {
+                        break;
+                    }
+                }
+            }
+            r.count(if got_partial { "sync.histories_with_partial_pass" } else { "sync.histories_without_partial_pass" });
+        }
         // ---- crash points inside freeze / wipe-out
         for k in 1..=writes_in_freeze.max(1) {
             for before in [true, false] {
@@ -528,6 +772,22 @@ pub fn run(args: &Args) -> i32 {
     r.require("histories_with_frozen_blocks", 1);
     r.require("crashes_injected", 2);
     r.require("reader_vectors", 1);
+    // durability-order monitor: a run that saw no interrupted pass / no synced key-value write says nothing
+    r.require("sync.strace_runs", 1);
+    r.require("sync.syscalls_parsed", 200);
+    r.require("sync.partial_passes_observed", 1);
+    r.require("sync.passes.full_pass", 1);
+    r.require("sync.kv_syncs_checked", 2);
+    r.require("sync.kv_syncs_checked.kv_wal", 2);
+    r.require("sync.writes.kv_wal", 2);
+    r.require("sync.writes.freezer_data", 4);
+    r.require("sync.writes.freezer_index", 4);
+    r.require("sync.syncs.freezer_data", 2);
+    r.require("sync.syncs.freezer_index", 2);
+    for a in vbase::durability::assumptions() {
+        r.assume(a);
+    }
+    r.assume("durability monitor (C10): once a freeze pass has written to the RocksDB WAL, any fsync/fdatasync of a file under db/ may make the deletion of the frozen blocks durable, so every freezer file must be clean at that moment; syncs before the pass wrote to the WAL are not judged");
     r.assume("expected answers are derived from the harness's copies of the generated blocks (RefChain), not from a pre-freeze reading");
     r.assume("a crash is process death immediately before/after a durable KV write of the wipe-out; byte-level cuts of the freezer files are the subject of C09");
     let code = r.finish(None);
